@@ -138,6 +138,9 @@ def worker(lib, objname, extra):
             try:
                 ipr = inplace.analyse(f, inr[0], outr[0], p1)
                 out["ip_pairs"] = out.get("ip_pairs", 0) + ipr.compared
+                out["ip_match"] = out.get("ip_match", 0) + ipr.matchable
+                if not ipr.matchable:
+                    out["broken"].append("%s: the in-place analysis relates no input-load address shape to any output-store address shape (it would pass vacuously)" % name)
                 if ipr.hazards:
                     l, st_, d = ipr.hazards[0]
                     out["findings"].append({"rule": "R03.5", "obj": objname, "function": name, "construct": "in-place",
@@ -203,7 +206,7 @@ def run(chk):
     tot = collections.Counter()
     for objname in sorted(res):
         r = res[objname]
-        for k in ("bodies", "ins_reachable", "mem_reachable", "aligned_sinks", "ptr_accesses", "r031_ok", "r031_bad", "r032_ok", "r032_bad", "ip_bodies", "ip_ok", "ip_pairs"):
+        for k in ("bodies", "ins_reachable", "mem_reachable", "aligned_sinks", "ptr_accesses", "r031_ok", "r031_bad", "r032_ok", "r032_bad", "ip_bodies", "ip_ok", "ip_pairs", "ip_match"):
             tot[k] += r.get(k, 0)
         for b in r["broken"]:
             chk.broke(b)
@@ -219,6 +222,8 @@ def run(chk):
     chk.obligations["R03.5"] = [tot["ip_bodies"], tot["ip_ok"]]
     chk.floor("bodies analysed for in-place hazards", tot["ip_bodies"], 24)
     chk.extra["in_place_pairs_compared"] = tot["ip_pairs"]
+    chk.extra["in_place_address_shapes_shared_by_loads_and_stores"] = tot["ip_match"]
+    chk.floor("address shapes shared by input loads and output stores (in-place analysis not vacuous)", tot["ip_match"], 100)
     for c in cand:
         chk.distinct.add(("body", c))
     chk.floor("XTS bodies analysed", tot["bodies"], 24)
